@@ -23,6 +23,17 @@ pub struct Sig {
     pub ret: STy,
     /// recursive function: first parameter is the depth counter
     pub rec: bool,
+    /// parameters of enum types (name, enum name); they come first
+    pub xparams: Vec<(String, String)>,
+}
+
+/// a function that builds a value of an enum type: `mkN(k: u8, p…) -> Enum` returns variant
+/// `k` (the last one for a larger `k`), its fields taken from the parameters
+#[derive(Clone, Debug)]
+pub struct Maker {
+    pub name: String,
+    pub params: Vec<(String, STy)>,
+    pub en: String,
 }
 
 #[derive(Clone, Debug)]
@@ -43,6 +54,14 @@ pub struct Gen<'p> {
     budget: i32,
     /// stay inside the common fragment of T5 (`Model/C01Resolve`): types `i32` / `bool`, no `/` `%`
     frag: bool,
+    /// the program's enum types (empty: no enum values, no `match`)
+    enums: Vec<EnumDef>,
+    makers: Vec<Maker>,
+    /// visible variables of enum types (name, enum name), one list per entry of `scopes`
+    xscopes: Vec<Vec<(String, String)>>,
+    /// variables bound by a pattern: the arm's block is their scope, so a `let` in it must not
+    /// reuse the name (`item … is declared multiple times`)
+    noshadow: Vec<String>,
 }
 
 /// the types of the T5 fragment (`i32` twice: most values are integers)
@@ -76,6 +95,7 @@ pub fn pins(e: &E) -> bool {
         E::Bin(op, l, r) => !op.is_arith() || pins(l) || pins(r),
         E::If(_, t, Some(_)) => t.last.as_ref().map(|x| pins(x)).unwrap_or(false),
         E::Block(b) => b.last.as_ref().map(|x| pins(x)).unwrap_or(false),
+        E::Match(_, arms) => arms.first().and_then(|a| a.body.last.as_ref()).map(|x| pins(x)).unwrap_or(false),
         _ => true,
     }
 }
@@ -92,6 +112,14 @@ impl<'p> Gen<'p> {
             }
         }
         out
+    }
+
+    fn push_scope(&mut self) { self.scopes.push(vec![]); self.xscopes.push(vec![]); }
+    fn pop_scope(&mut self) { self.scopes.pop(); self.xscopes.pop(); }
+
+    /// visible variables of the enum type `en`
+    fn xvisible(&self, en: &str) -> Vec<String> {
+        self.xscopes.iter().flatten().filter(|(_, e)| e == en).map(|(x, _)| x.clone()).collect()
     }
 
     fn declare(&mut self, name: &str, ty: STy, assignable: bool) {
@@ -169,6 +197,10 @@ impl<'p> Gen<'p> {
 
     fn call(&mut self, sig: &Sig, depth: u32) -> E {
         let mut args = vec![];
+        for (_, en) in &sig.xparams {
+            let def = self.enums.iter().find(|d| &d.name == en).expect("enum").clone();
+            args.push(self.enum_expr(&def, depth.min(2)));
+        }
         for (i, (_, t)) in sig.params.iter().enumerate() {
             if sig.rec && i == 0 {
                 // depth counter: a small literal, or a visible unsigned variable reduced mod 21
@@ -197,6 +229,9 @@ impl<'p> Gen<'p> {
         let d = depth - 1;
         if self.p.chance(1, 12) {
             if let Some(e) = self.order_probe(ty, d) { return e; }
+        }
+        if !self.enums.is_empty() && self.p.chance(1, 6) {
+            return self.match_expr(Some(ty), d, fixed);
         }
         let roll = self.p.below(100);
         if ty == STy::Bool {
@@ -255,12 +290,140 @@ impl<'p> Gen<'p> {
         if vars.is_empty() { return None; }
         let v = self.p.pick(&vars).clone();
         let op = if ty == STy::Bool { *self.p.pick(&CMP) } else { *self.p.pick(&ARITH[..3]) };
-        self.scopes.push(vec![]);
+        self.push_scope();
         let newv = self.expr(v.ty, d.min(1), true);
         let last = self.expr(v.ty, d.min(1), true);
-        self.scopes.pop();
+        self.pop_scope();
         let blk = Blk { stmts: vec![S::Do(E::Set(v.name.clone(), Box::new(newv)))], last: Some(Box::new(last)) };
         Some(E::Bin(op, Box::new(E::Var(v.name, v.ty)), Box::new(E::Block(blk))))
+    }
+
+    /// an expression of the enum type `def`: a visible variable, `if`/`else`, a call of the
+    /// maker, a `match` that yields the enum, or a constructor
+    pub fn enum_expr(&mut self, def: &EnumDef, depth: u32) -> E {
+        self.budget -= 1;
+        let roll = self.p.below(100);
+        let vars = self.xvisible(&def.name);
+        if !vars.is_empty() && roll < 40 {
+            return E::XVar(self.p.pick(&vars).clone(), def.name.clone());
+        }
+        if depth > 0 && self.budget > 0 && (40..52).contains(&roll) {
+            let c = self.expr(STy::Bool, depth - 1, true);
+            let a = self.enum_expr(def, depth - 1);
+            let b = self.enum_expr(def, depth - 1);
+            return E::If(Box::new(c), Blk { stmts: vec![], last: Some(Box::new(a)) }, Some(Blk { stmts: vec![], last: Some(Box::new(b)) }));
+        }
+        if depth > 0 && self.budget > 0 && (52..58).contains(&roll) {
+            return self.match_expr_of(None, Some(def), depth - 1, true);
+        }
+        if let Some(mk) = self.makers.iter().find(|m| m.en == def.name).cloned() {
+            if (58..80).contains(&roll) {
+                let n = def.variants.len() as u64;
+                let k = if self.p.chance(1, 2) {
+                    E::Lit { ty: STy::U8, bits: self.p.below(n + 1), suffixed: self.p.chance(1, 2) }
+                } else {
+                    let x = self.expr(STy::U8, depth.min(1), true);
+                    E::Bin(Op::Mod, Box::new(x), Box::new(E::Lit { ty: STy::U8, bits: n, suffixed: self.p.chance(1, 2) }))
+                };
+                let mut args = vec![k];
+                for (_, t) in mk.params.iter().skip(1) { args.push(self.expr(*t, depth.min(1), true)); }
+                return E::XCall(mk.name.clone(), args, def.name.clone());
+            }
+        }
+        let k = self.p.below(def.variants.len() as u64) as usize;
+        let (vname, fields) = def.variants[k].clone();
+        let args = fields.iter().map(|t| self.expr(*t, depth.min(1), true)).collect();
+        E::Ctor(def.name.clone(), vname, args)
+    }
+
+    /// `match` on a value of a random enum type, every arm of type `ty` (`None`: unit)
+    fn match_expr(&mut self, ty: Option<STy>, depth: u32, fixed: bool) -> E {
+        self.match_expr_of(ty, None, depth, fixed)
+    }
+
+    /// the arms of a well-typed `match`: patterns in a random order, a variant may come again
+    /// after a guarded arm of its own, nothing follows an unguarded `_`, and either every
+    /// variant has an unguarded arm or an unguarded `_` closes the list. The arms' blocks have
+    /// type `ty`, or the enum type `xty` when that is given.
+    fn match_expr_of(&mut self, ty: Option<STy>, xty: Option<&EnumDef>, depth: u32, fixed: bool) -> E {
+        let def = self.p.pick(&self.enums.clone()).clone();
+        let scrut = self.enum_expr(&def, depth.min(2));
+        let n = def.variants.len();
+        let mut closed = vec![false; n];
+        let mut pats: Vec<(Option<usize>, bool)> = vec![]; // (variant or `_`, guarded)
+        // the shape: now and then exactly one variant (any position) + `_`, or all variants
+        match self.p.below(5) {
+            0 => { let k = self.p.below(n as u64) as usize; pats.push((Some(k), false)); pats.push((None, false)); }
+            1 => {
+                let mut order: Vec<usize> = (0..n).collect();
+                for i in (1..n).rev() { let j = self.p.below(i as u64 + 1) as usize; order.swap(i, j); }
+                for k in order { pats.push((Some(k), false)); }
+            }
+            _ => loop {
+                if closed.iter().all(|c| *c) { break; }
+                if pats.len() >= 6 { pats.push((None, false)); break; }
+                let guarded = self.p.chance(3, 10);
+                if self.p.chance(1, 5) {
+                    pats.push((None, guarded));
+                    if !guarded { break; }
+                } else {
+                    let open: Vec<usize> = (0..n).filter(|k| !closed[*k]).collect();
+                    let k = *self.p.pick(&open);
+                    pats.push((Some(k), guarded));
+                    if !guarded { closed[k] = true; }
+                }
+            },
+        }
+        let mut arms = vec![];
+        let mut pinned = fixed;
+        for (pat, guarded) in pats {
+            self.push_scope();
+            let mut binds = vec![];
+            if let Some(k) = pat {
+                for t in &def.variants[k].1 {
+                    // not `f`: `f32` / `f64` would shadow the type names
+                    let x = self.fresh_name("q");
+                    self.declare(&x, *t, true);
+                    self.noshadow.push(x.clone());
+                    binds.push((x, *t));
+                }
+            }
+            let guard = if guarded {
+                // biased to a test of a field of the matched value
+                let num: Vec<&(String, STy)> = binds.iter().filter(|(_, t)| t.is_int() || t.is_float()).collect();
+                if !num.is_empty() && self.p.chance(2, 3) {
+                    let (x, t) = (*self.p.pick(&num)).clone();
+                    let rhs = self.lit(t, true);
+                    Some(E::Bin(*self.p.pick(&CMP), Box::new(E::Var(x, t)), Box::new(rhs)))
+                } else {
+                    Some(self.expr(STy::Bool, depth.min(1), true))
+                }
+            } else { None };
+            let body = match (xty, ty) {
+                (Some(d), _) => {
+                    let e = self.enum_expr(d, depth.min(1));
+                    Blk { stmts: vec![], last: Some(Box::new(e)) }
+                }
+                (None, Some(t)) => {
+                    let b = self.vblock(t, depth, pinned);
+                    pinned = pinned || b.last.as_ref().map(|x| pins(x)).unwrap_or(false);
+                    b
+                }
+                (None, None) => self.ublock(depth, 0, 2),
+            };
+            self.pop_scope();
+            arms.push(Arm { pat: pat.map(|k| def.variants[k].0.clone()), binds, guard, body });
+        }
+        E::Match(Box::new(scrut), arms)
+    }
+
+    fn letx_stmt(&mut self, depth: u32) -> Vec<S> {
+        let def = self.p.pick(&self.enums.clone()).clone();
+        let init = self.enum_expr(&def, depth);
+        let name = self.fresh_name("e");
+        let ann = self.p.chance(3, 10);
+        self.xscopes.last_mut().unwrap().push((name.clone(), def.name.clone()));
+        vec![S::LetX(name, def.name.clone(), ann, init)]
     }
 
     fn call_of(&mut self, ty: STy, d: u32, fixed: bool) -> E {
@@ -280,22 +443,22 @@ impl<'p> Gen<'p> {
 
     /// a block that ends in a value of type `ty`
     pub fn vblock(&mut self, ty: STy, depth: u32, fixed: bool) -> Blk {
-        self.scopes.push(vec![]);
+        self.push_scope();
         let mut stmts = vec![];
         if depth >= 1 {
             for _ in 0..self.p.below(3) { stmts.extend(self.stmt(depth - 1)); }
         }
         let last = self.expr(ty, depth, fixed);
-        self.scopes.pop();
+        self.pop_scope();
         Blk { stmts, last: Some(Box::new(last)) }
     }
 
     /// a block of statements only (type unit)
     fn ublock(&mut self, depth: u32, min: u64, max: u64) -> Blk {
-        self.scopes.push(vec![]);
+        self.push_scope();
         let mut stmts = vec![];
         for _ in 0..(min + self.p.below(max - min + 1)) { stmts.extend(self.stmt(depth)); }
-        self.scopes.pop();
+        self.pop_scope();
         Blk { stmts, last: None }
     }
 
@@ -303,7 +466,7 @@ impl<'p> Gen<'p> {
         let ty = self.any_ty();
         // shadow an outer (assignable) name now and then — only possible in a nested scope
         let cur: Vec<String> = self.scopes.last().unwrap().iter().map(|v| v.name.clone()).collect();
-        let outer: Vec<VarInfo> = self.visible().into_iter().filter(|v| v.assignable && !cur.contains(&v.name)).collect();
+        let outer: Vec<VarInfo> = self.visible().into_iter().filter(|v| v.assignable && !cur.contains(&v.name) && !self.noshadow.contains(&v.name)).collect();
         let name = if self.scopes.len() > 1 && !outer.is_empty() && self.p.chance(1, 4) {
             self.p.pick(&outer).name.clone()
         } else {
@@ -374,6 +537,21 @@ impl<'p> Gen<'p> {
 
     pub fn stmt(&mut self, depth: u32) -> Vec<S> {
         self.budget -= 1;
+        if !self.enums.is_empty() && self.p.chance(1, 4) {
+            return match self.p.below(4) {
+                0 | 1 => self.letx_stmt(depth.min(2)),
+                2 if depth >= 1 => vec![S::Do(self.match_expr(None, depth - 1, true))],
+                _ => {
+                    // assignment to a variable of an enum type
+                    let all: Vec<(String, String)> = self.xscopes.iter().flatten().cloned().collect();
+                    if all.is_empty() { return self.letx_stmt(depth.min(2)); }
+                    let (x, en) = self.p.pick(&all).clone();
+                    let def = self.enums.iter().find(|d| d.name == en).expect("enum").clone();
+                    let rhs = self.enum_expr(&def, depth.min(2));
+                    vec![S::Do(E::Set(x, Box::new(rhs)))]
+                }
+            };
+        }
         let roll = self.p.below(100);
         match roll {
             0..=34 => self.let_stmt(depth),
@@ -389,9 +567,9 @@ impl<'p> Gen<'p> {
                 let ret_ty = self.ret_ty;
                 if self.p.chance(7, 10) {
                     let c = self.expr(STy::Bool, depth.min(2), true);
-                    self.scopes.push(vec![]);
+                    self.push_scope();
                     let v = self.expr(ret_ty, depth.min(2), true);
-                    self.scopes.pop();
+                    self.pop_scope();
                     vec![S::Do(E::If(Box::new(c), Blk { stmts: vec![S::Do(E::Ret(Box::new(v)))], last: None }, None))]
                 } else {
                     // a bare `return`: whatever follows in this block is dead code
@@ -423,11 +601,57 @@ pub struct Generated {
 }
 
 #[allow(dead_code)]
-pub fn gen_program(p: &mut Prng) -> Generated { gen_program_in(p, false) }
+pub fn gen_program(p: &mut Prng) -> Generated { gen_program_in(p, false, false) }
 
-/// `frag`: a program of the common fragment of T5 (types `i32` / `bool`, no `/` `%`)
-pub fn gen_program_in(p: &mut Prng, frag: bool) -> Generated {
+pub const VARIANT_NAMES: [&str; 5] = ["Dot", "Line", "Square", "Cube", "Tess"];
+
+/// One or two enum types with 2..=5 variants of 0..=2 scalar fields, and for each (mostly) a
+/// maker function `mkN(k: u8, p…) -> Enum`.
+fn gen_enums(p: &mut Prng) -> (Vec<EnumDef>, Vec<Maker>, Vec<Func>) {
+    let tys = all_tys();
+    let mut enums = vec![];
+    let mut makers = vec![];
+    let mut fns = vec![];
+    for i in 0..(1 + p.below(2)) {
+        let n = 2 + p.below(4) as usize;
+        let prefix = ["A", "B"][i as usize];
+        let variants: Vec<(String, Vec<STy>)> = (0..n)
+            .map(|k| (format!("{prefix}{}", VARIANT_NAMES[k]), (0..p.below(3)).map(|_| *p.pick(&tys)).collect()))
+            .collect();
+        let def = EnumDef { name: format!("En{prefix}"), variants };
+        if p.chance(3, 4) {
+            // one parameter per field type that occurs (at most three), the rest are literals
+            let mut ptys: Vec<STy> = vec![];
+            for (_, fs) in &def.variants { for t in fs { if !ptys.contains(t) && ptys.len() < 3 { ptys.push(*t); } } }
+            let mut params = vec![("k".to_string(), STy::U8)];
+            params.extend(ptys.iter().enumerate().map(|(j, t)| (format!("p{j}"), *t)));
+            let ctor = |k: usize| {
+                let args = def.variants[k].1.iter().map(|t| match ptys.iter().position(|u| u == t) {
+                    Some(j) => E::Var(format!("p{j}"), *t),
+                    None => E::Lit { ty: *t, bits: if *t == STy::Bool { 1 } else if t.is_float() { 0 } else { 3 }, suffixed: true },
+                }).collect();
+                E::Ctor(def.name.clone(), def.variants[k].0.clone(), args)
+            };
+            let mut e = ctor(n - 1);
+            for k in (0..n - 1).rev() {
+                let c = E::Bin(Op::Eq, Box::new(E::Var("k".into(), STy::U8)), Box::new(E::Lit { ty: STy::U8, bits: k as u64, suffixed: false }));
+                e = E::If(Box::new(c), Blk { stmts: vec![], last: Some(Box::new(ctor(k))) }, Some(Blk { stmts: vec![], last: Some(Box::new(e)) }));
+            }
+            let name = format!("mk{i}");
+            fns.push(Func { name: name.clone(), xparams: vec![], params: params.clone(), ret: STy::Bool, xret: Some(def.name.clone()),
+                            body: Blk { stmts: vec![], last: Some(Box::new(e)) } });
+            makers.push(Maker { name, params, en: def.name.clone() });
+        }
+        enums.push(def);
+    }
+    (enums, makers, fns)
+}
+
+/// `frag`: a program of the common fragment of T5 (types `i32` / `bool`, no `/` `%`);
+/// `with_enums`: the program declares enum types and matches on their values
+pub fn gen_program_in(p: &mut Prng, frag: bool, with_enums: bool) -> Generated {
     let tys = if frag { FRAG_TYS.to_vec() } else { all_tys() };
+    let (enums, makers, maker_fns) = if with_enums && !frag { gen_enums(p) } else { (vec![], vec![], vec![]) };
     let arg_ty = *p.pick(&tys);
     let arity = 1 + p.below(3) as usize;
     let ret = *p.pick(&tys);
@@ -436,7 +660,9 @@ pub fn gen_program_in(p: &mut Prng, frag: bool) -> Generated {
     for i in 0..nh {
         let np = 1 + p.below(3) as usize;
         let params = (0..np).map(|j| (format!("p{j}"), *p.pick(&tys))).collect();
-        helpers.push(Sig { name: format!("h{i}"), params, ret: *p.pick(&tys), rec: false });
+        // a helper may take a value of an enum type
+        let xparams = if !enums.is_empty() && p.chance(1, 2) { vec![("s".to_string(), p.pick(&enums).name.clone())] } else { vec![] };
+        helpers.push(Sig { name: format!("h{i}"), params, ret: *p.pick(&tys), rec: false, xparams });
     }
     let mut recs: Vec<Sig> = vec![];
     if p.chance(2, 5) {
@@ -446,10 +672,10 @@ pub fn gen_program_in(p: &mut Prng, frag: bool) -> Generated {
         for i in 0..n {
             let mut params = vec![("n".to_string(), nt), ("acc".to_string(), t)];
             if p.chance(1, 3) { params.push(("x".to_string(), *p.pick(&tys))); }
-            recs.push(Sig { name: format!("r{i}"), params, ret: t, rec: true });
+            recs.push(Sig { name: format!("r{i}"), params, ret: t, rec: true, xparams: vec![] });
         }
     }
-    let mut fns: Vec<Func> = vec![];
+    let mut fns: Vec<Func> = maker_fns;
     // helpers: hi may call hj for j > i, outside loops only
     for i in 0..nh {
         let sig = helpers[i].clone();
@@ -457,10 +683,11 @@ pub fn gen_program_in(p: &mut Prng, frag: bool) -> Generated {
             p, scopes: vec![sig.params.iter().map(|(x, t)| VarInfo { name: x.clone(), ty: *t, assignable: true }).collect()],
             callable: helpers[i + 1..].to_vec(), ret_ty: sig.ret, loop_depth: 0, calls_in_loops: false,
             fresh: 100 * (i + 1), budget: 40, frag,
+            enums: enums.clone(), makers: makers.clone(), xscopes: vec![sig.xparams.clone()], noshadow: vec![],
         };
         let depth = 1 + g.p.below(3) as u32;
         let body = body_of(&mut g, sig.ret, depth, 3);
-        fns.push(Func { name: sig.name, params: sig.params, ret: sig.ret, body });
+        fns.push(Func { name: sig.name, xparams: sig.xparams, params: sig.params, ret: sig.ret, xret: None, body });
     }
     // recursive group: one recursive call per activation, depth counter first
     for i in 0..recs.len() {
@@ -472,6 +699,7 @@ pub fn gen_program_in(p: &mut Prng, frag: bool) -> Generated {
             p, scopes: vec![sig.params.iter().enumerate().map(|(j, (x, t))| VarInfo { name: x.clone(), ty: *t, assignable: j > 0 }).collect()],
             callable: helpers.clone(), ret_ty: t, loop_depth: 0, calls_in_loops: false,
             fresh: 500 + 100 * i, budget: 30, frag,
+            enums: enums.clone(), makers: makers.clone(), xscopes: vec![vec![]], noshadow: vec![],
         };
         let nvar = || E::Var("n".into(), nt);
         let zero = E::Lit { ty: nt, bits: 0, suffixed: g.p.chance(1, 2) };
@@ -500,7 +728,7 @@ pub fn gen_program_in(p: &mut Prng, frag: bool) -> Generated {
                 g.expr(t, 2, true)
             }
         };
-        fns.push(Func { name: sig.name, params: sig.params, ret: t, body: Blk { stmts, last: Some(Box::new(last)) } });
+        fns.push(Func { name: sig.name, xparams: vec![], params: sig.params, ret: t, xret: None, body: Blk { stmts, last: Some(Box::new(last)) } });
     }
     // main
     let params: Vec<(String, STy)> = ["a", "b", "c"][..arity].iter().map(|x| (x.to_string(), arg_ty)).collect();
@@ -509,12 +737,13 @@ pub fn gen_program_in(p: &mut Prng, frag: bool) -> Generated {
     let mut g = Gen {
         p, scopes: vec![params.iter().map(|(x, t)| VarInfo { name: x.clone(), ty: *t, assignable: true }).collect()],
         callable, ret_ty: ret, loop_depth: 0, calls_in_loops: true, fresh: 0, budget: 70, frag,
+        enums: enums.clone(), makers, xscopes: vec![vec![]], noshadow: vec![],
     };
     let depth = 2 + g.p.below(3) as u32;
     let body = body_of(&mut g, ret, depth, 4);
-    fns.push(Func { name: "main".into(), params, ret, body });
+    fns.push(Func { name: "main".into(), xparams: vec![], params, ret, xret: None, body });
     let _ = numeric_tys;
-    Generated { prog: Prog { fns }, arg_ty, arity, ret }
+    Generated { prog: Prog { enums, fns }, arg_ty, arity, ret }
 }
 
 /// ~30 argument tuples: boundary values, random values, small values.
